@@ -131,10 +131,14 @@ def gen_cases(rng, tier):
         if rec in ('diag', 'diag2', 'dc2', 'dc4', 'individual', 'individual_num', 'individual_flip', 'quad_restr', 'quad_gso', 'quad_sso') \
                 and rng.random() < 0.3:
             t = rng.choice([7.5, -12.25, 40.0])
+        algo = [None, 'taylor', 'chebyshev', None][(k // len(recipes) + recipes.index(rec)) % 4]
+        if algo and t == 0.0:
+            t = rng.choice([0.05, -0.3, 0.7])     # t = 0 says nothing about a propagator (kept for the closed-form routes)
         keys = fqeio.sector_keys(norb, mode, nn, sz)
         cases.append({'kind': 'evolve', 'recipe': rec, 'norb': norb, 'mode': mode, 'n': nn, 'sz': sz,
                       'vec': fqeio.random_state(rng, norb, keys, density=0.8, amp=2), 'ham': ham, 't': t,
-                      'algo': rng.choice([None, None, 'taylor', 'chebyshev']),
+                      # every recipe meets every propagator: the k-th case of a recipe cycles through the choices
+                      'algo': algo,
                       # the same Hamiltonian OBJECT used before the evolution (energy measurement, apply)
                       'warm': rng.choice([None, None, 'apply', 'expect'])})
     for c in cases:
@@ -224,6 +228,15 @@ def run_impl(case, mode):
         gu, err = attempt(lambda: wfn.apply_generated_unitary(t, case['algo'], ham, accuracy=1e-13, expansion=80, **kw))
         res['genu'] = fqeio.read_state(gu) if gu is not None else None
         res['genu_err'] = err
+        # the Hamiltonian object after the polynomial propagator consumed it: both routes once more
+        if gu is not None:
+            gu2, err2 = attempt(lambda: wfn.apply_generated_unitary(t, case['algo'], ham, accuracy=1e-13, expansion=80, **kw))
+            res['genu_again'] = fqeio.read_state(gu2) if gu2 is not None else None
+            res['genu_again_err'] = err2
+            if out is not None:
+                out3, err3 = attempt(lambda: wfn.time_evolve(t, ham))
+                res['evolve_after_genu'] = fqeio.read_state(out3) if out3 is not None else None
+                res['evolve_after_genu_err'] = err3
     return res
 
 
@@ -234,14 +247,20 @@ def taylor_oracle(model, case):
     basis = fqeio.basis_of(norb, keys)
     htok = c01.ham_tokens(case['ham'], norb)
     t = Fraction(case['t'])
-    L1 = l1_norm(case['ham'], norb) + abs(case['ham']['e0'][0])
+    # truncation order from the two proved bounds: |coeff (H^k psi) d| <= L1^k * mass (C02_oracle_power_bound, with
+    # L1 = m_l1 and mass = m_mass of the extracted model) and the scalar tail (C16_taylor_tail_bound): every
+    # coefficient of the remainder after K terms is below tail(x) * mass, x = |t| * L1
+    L1 = int(model.q('L1H', norb, *htok)[0])
+    mass = int(model.q('MASS', norb, *fqeio.vec_tokens(case['vec']))[0])
+    nrm = math.sqrt(sum(re * re + im * im for a, b, re, im in case['vec']))
+    ratio = mass / nrm if nrm > 0 else 1.0
     x = abs(float(t)) * L1
-    # order K with tail bound below 1e-13 (relative to |psi|)
+    # order K with the remainder below 1e-13 |psi| in every coefficient
     K = 2
     while True:
         if K + 2 > x:
             tail = x ** (K + 1) / math.factorial(K + 1) * (K + 2) / (K + 2 - x)
-            if tail < 1e-13:
+            if tail * ratio < 1e-13:
                 break
         K += 1
         if K > 140:
@@ -335,6 +354,17 @@ def compare(case, got, exp, mode):
                 bad.append('apply_generated_unitary(%s) raised %s' % (case['algo'], got.get('genu_err')))
         else:
             _cmp_state(got['genu'], exp['out'], 'apply_generated_unitary(%s, t=%r) [%s]' % (case['algo'], case['t'], got['route']['cls']), bad, scale)
+            if got.get('genu_again') is None:
+                bad.append('apply_generated_unitary(%s) with the same Hamiltonian object a second time raised %s' % (case['algo'], got.get('genu_again_err')))
+            else:
+                _cmp_state(got['genu_again'], exp['out'], 'apply_generated_unitary(%s, t=%r) a second time with the same Hamiltonian object [%s]' %
+                           (case['algo'], case['t'], got['route']['cls']), bad, scale)
+            if 'evolve_after_genu' in got:
+                if got['evolve_after_genu'] is None:
+                    bad.append('time_evolve after apply_generated_unitary(%s) with the same Hamiltonian object raised %s' % (case['algo'], got.get('evolve_after_genu_err')))
+                else:
+                    _cmp_state(got['evolve_after_genu'], exp['out'], 'time_evolve(t=%r) after apply_generated_unitary(%s) with the same Hamiltonian object [%s]' %
+                               (case['t'], case['algo'], got['route']['cls']), bad, scale)
     return bad
 
 
@@ -378,12 +408,13 @@ def shrink(case):
 
 
 sample = c01.sample
-THEOREM_FILES = ['P_C02']
+THEOREM_FILES = ['P_C02', 'P_C02_norm']
 RULE = ('Hermitian Hamiltonians of every route (diagonal, quadratic restricted/GSO/SSO, diagonal-Coulomb from 2- and '
         '4-index data, single term + h.c., number-operator term, dense rank 2-3, multi-term sparse), scalar offsets '
         '{0,1,-2,3}, times {0, +-2^-6, 0.05, -0.3, 0.7, 1, 7.5, -12.25, 40}, unnormalised Gaussian-integer states, '
         'both wavefunction modes, both paths, default route + Taylor + Chebyshev. non-trivial: t != 0 and >= 2 '
         'determinants in the result')
-NOT_PROVED = ['the scalar tail bound of the exact Taylor oracle is proved (TaylorTail.v, stated in P_C16); the operator-norm step '
-              '||H^k psi|| <= L1^k ||psi|| is not; the quadratic (orbital-rotation) route has no closed-form theorem: it is tied '
-              'through the exterior-power oracle (kind evolve_ext)']
+NOT_PROVED = ['the scalar tail bound of the exact Taylor oracle (TaylorTail.v, stated in P_C16) and the operator-norm step in l1 '
+              'form (C02_oracle_power_bound) are proved; the convergence of the series to exp(-iHt) psi itself (the limit) is not a '
+              'Coq object here; the quadratic (orbital-rotation) route has no closed-form theorem: it is tied through the '
+              'exterior-power oracle (kind evolve_ext)']
